@@ -140,7 +140,7 @@ Proof.
   - cbn in Hnow. destruct (exec_obs cfg s batch s' ob HS H) as [txns [Ht [[rss [Ee ->]]|[Ee [Hdb ->]]]]];
       unfold c04_chk_partial; cbn; rewrite app_nil_r.
     + assert (S' : ShapeDb (s_now s) (s_db s')).
-      { eapply exec_batch_shape with (d0 := s_db s); try eassumption; try exact (proj1 HS). apply prom_le_refl. }
+      { eapply exec_batch_shape with (d0 := s_db s); try eassumption; try exact (SInv_uniq _ HS). apply prom_le_refl. }
       split; [split; [exact HS'|rewrite Hnow; exact S']|]. rewrite c04_exec_ok by exact S'. reflexivity.
     + split; [split; [exact HS'|rewrite Hnow, Hdb; exact HSh]|]. rewrite c04_exec_ok by exact HSh. reflexivity.
   - destruct (other_steps_db cfg s _ s' ob H I) as [Hdb ->]. cbn in Hnow. split; [split; [exact HS'|rewrite Hnow, Hdb; exact HSh]|reflexivity].
